@@ -6,6 +6,7 @@ import (
 	"fmt"
 	"strings"
 	"sync"
+	"time"
 
 	"github.com/indexsupply/shovel/dig"
 	"github.com/indexsupply/shovel/eth"
@@ -70,10 +71,53 @@ func flagsOf(f *glf.Filter) string {
 // e2eFields indexes blocks [1,3] of `node` with an integration selecting `fields` and compares
 // every stored column with the node's data. Returns "ok" or a description of the first mismatch.
 func e2eFields(node *simnode.Node, chain *simnode.Chain, mode string, fields []string) (string, map[string]any) {
+	return e2eFieldsOn(nil, node, chain, mode, fields, "transfer")
+}
+
+// e2eSharedClient: several integrations of one source share ONE caching client and ask for the same
+// range one after the other (what tasks of a source do): each must still store exactly the node's
+// values - whatever the others fetched, cached or attached before.
+func e2eSharedClient(e *core.Env, node *simnode.Node, chain *simnode.Chain) {
+	type step struct {
+		mode   string
+		fields []string
+		ev     string
+	}
+	seqs := [][]step{
+		// two events of the same transactions; the second one's log has the LOWER index
+		{{"log", []string{"block_time"}, "approval"}, {"log", []string{"block_time"}, "transfer"}},
+		{{"log", []string{"block_time"}, "transfer"}, {"log", []string{"block_time"}, "approval"}, {"log", []string{"block_time"}, "transfer"}},
+		// a header-level plan first, then a block-level plan on the same range (and the reverse)
+		{{"log", []string{"block_time"}, "transfer"}, {"tx", []string{"tx_input", "tx_value", "block_time"}, ""}},
+		{{"tx", []string{"tx_input", "block_time"}, ""}, {"log", []string{"block_time"}, "transfer"}, {"tx", []string{"tx_nonce", "tx_to"}, ""}},
+		// receipts and traces attached twice to the same cached blocks
+		{{"tx", []string{"tx_status", "tx_input"}, ""}, {"tx", []string{"tx_status", "tx_gas_used", "tx_input"}, ""}},
+		{{"trace", []string{"trace_action_value", "tx_hash"}, ""}, {"trace", []string{"trace_action_from", "trace_action_value", "tx_hash"}, ""}},
+	}
+	for si, seq := range seqs {
+		cl := jrpc2.New(node.URL()).WithMaxReads(20).WithPollDuration(time.Hour)
+		for k, st := range seq {
+			res, detail := e2eFieldsOn(cl, node, chain, st.mode, st.fields, st.ev)
+			detail["sequence"] = si
+			detail["position_in_sequence"] = k
+			e.Add(core.Case{Impl: res, Spec: "ok", Key: fmt.Sprintf("e2e-shared %d %d", si, k), Nontrivial: true,
+				Tags: []string{"e2e-shared-client", "mode=" + st.mode}, Detail: detail})
+		}
+	}
+}
+
+func e2eFieldsOn(cl *jrpc2.Client, node *simnode.Node, chain *simnode.Chain, mode string, fields []string, evKind string) (string, map[string]any) {
 	var ev *dig.Event
 	var cols []wpg.Column
+	sigWant := transferEvent.SignatureHash()
+	valCol, aCol, bCol := "ev_value", "ev_from", "ev_to"
 	if mode == "log" {
 		ev, cols = &transferEvent, transferCols
+		if evKind == "approval" {
+			ev, cols = &approvalEvent, approvalCols
+			sigWant = approvalEvent.SignatureHash()
+			aCol, bCol = "ev_owner", "ev_spender"
+		}
 	}
 	detail := map[string]any{"mode": mode, "fields": fields}
 	// every other field is stored under a column that is NOT named like the field: the planner and the
@@ -98,12 +142,16 @@ func e2eFields(node *simnode.Node, chain *simnode.Chain, mode string, fields []s
 	}
 	flt := ig.Filter()
 	detail["plan"] = flagsOf(&flt)
-	cl := jrpc2.New(node.URL() + "/nocache")
+	getURL := node.URL()
+	if cl == nil {
+		cl = jrpc2.New(node.URL() + "/nocache")
+		getURL = node.URL() + "/nocache"
+	}
 	ctx := e2eCtx("src1", 7)
 	var blocks []eth.Block
 	out := core.Protect(func() string {
 		var err error
-		blocks, err = cl.Get(ctx, node.URL()+"/nocache", &flt, 1, 3)
+		blocks, err = cl.Get(ctx, getURL, &flt, 1, 3)
 		if err != nil {
 			return "get-error: " + err.Error()
 		}
@@ -140,7 +188,7 @@ func e2eFields(node *simnode.Node, chain *simnode.Chain, mode string, fields []s
 			case "log":
 				for li := range t.Logs {
 					// the Transfer logs: signature hash and exactly three topics (a decoy with four is not one)
-					if l := &t.Logs[li]; len(l.Topics) == 3 && bytes.Equal(l.Topics[0], transferEvent.SignatureHash()) {
+					if l := &t.Logs[li]; len(l.Topics) == 3 && bytes.Equal(l.Topics[0], sigWant) {
 						want[key{b.Num, t.Idx, l.Idx}] = item{b: b, t: t, l: l}
 					}
 				}
@@ -180,14 +228,14 @@ func e2eFields(node *simnode.Node, chain *simnode.Chain, mode string, fields []s
 			}
 		}
 		if mode == "log" {
-			if got, exp := r["ev_value"], "n:"+new256(it.l.Data).Dec(); got != exp {
-				return fmt.Sprintf("ev_value: stored %s want %s", got, exp), detail
+			if got, exp := r[valCol], "n:"+new256(it.l.Data[:32]).Dec(); got != exp {
+				return fmt.Sprintf("%s: stored %s want %s", valCol, got, exp), detail
 			}
-			if got, exp := r["ev_from"], fmt.Sprintf("x:%x", it.l.Topics[1][12:]); got != exp {
-				return fmt.Sprintf("ev_from: stored %s want %s", got, exp), detail
+			if got, exp := r[aCol], fmt.Sprintf("x:%x", it.l.Topics[1][12:]); got != exp {
+				return fmt.Sprintf("%s: stored %s want %s", aCol, got, exp), detail
 			}
-			if got, exp := r["ev_to"], fmt.Sprintf("x:%x", it.l.Topics[2][12:]); got != exp {
-				return fmt.Sprintf("ev_to: stored %s want %s", got, exp), detail
+			if got, exp := r[bCol], fmt.Sprintf("x:%x", it.l.Topics[2][12:]); got != exp {
+				return fmt.Sprintf("%s: stored %s want %s", bCol, got, exp), detail
 			}
 		}
 	}
@@ -236,6 +284,7 @@ func runC14(e *core.Env) error {
 	node := simnode.NewNode(chain)
 	defer node.Close()
 	_ = context.Background
+	e2eSharedClient(e, node, chain)
 	for _, s := range sets {
 		// K: planner flags
 		f := glf.New(s, nil, nil)
